@@ -730,3 +730,78 @@ Lemma source_tie_round2 :
   getslice_collapse_step = "wstart[i - 1] *= fdims[i]; wdims[i - 1] *= wdims[i]; adims[i - 1] *= adims[i]; fdims[i - 1] *= fdims[i]; rank--;"%string /\
   getslice_fast_readsize = "readsize = wdims[0] * fileNTsize;"%string.
 Proof. repeat split; reflexivity. Qed.
+
+(* --------------------------------------------------- round 3: the writer's scales record between datasets *)
+(** the bookkeeping invariant: "no record" means no scale is set; "record r is up to date" means the record holds
+    exactly the scales now in effect *)
+Definition wsc_ok (st : wscales) : Prop :=
+  (wsc_ref st = -1 -> has_scale (wsc_scales st) = false) /\
+  (0 < wsc_ref st -> wsc_written st = sds_encode (wsc_scales st)) /\ -1 <= wsc_ref st.
+
+Lemma has_scale_repeat : forall n, has_scale (repeat None n) = false.
+Proof. induction n; simpl; auto. Qed.
+
+Lemma wsc_ok_step : forall st op, wsc_ok st -> (match op with WPut r => 0 < r | _ => True end) -> wsc_ok (fst (wsc_step st op)).
+Proof.
+  intros st op (H1 & H2 & H3) Hop. destruct op as [d s | rank | rank | r]; cbn [wsc_step fst].
+  - unfold wsc_setscale, wsc_ok. cbn [wsc_ref wsc_scales wsc_written].
+    assert (E : (match s with Some _ => DFSDsetdimscale_set_marks_modified | None => DFSDsetdimscale_null_marks_modified end) = true)
+      by (destruct s; reflexivity).
+    rewrite E. repeat split; intros; lia.
+  - unfold wsc_forget, wsc_ok. cbn [wsc_ref wsc_scales wsc_written].
+    change DFSDIclear_forgets_scales_record with true. cbn. repeat split; intros; try lia. apply has_scale_repeat.
+  - unfold wsc_forget, wsc_ok. cbn [wsc_ref wsc_scales wsc_written].
+    change DFSDIclearNT_forgets_scales_record with true. cbn. repeat split; intros; try lia. apply has_scale_repeat.
+  - unfold wsc_put. destruct (Z.eqb_spec (wsc_ref st) 0) as [E | E].
+    + destruct (has_scale (wsc_scales st)) eqn:HS; cbn [fst]; unfold wsc_ok; cbn [wsc_ref wsc_scales wsc_written];
+        repeat split; intros; try lia; auto.
+    + destruct (Z.ltb_spec 0 (wsc_ref st)); cbn [fst]; unfold wsc_ok; auto.
+Qed.
+
+(** the record an NDG refers to holds exactly the scales in effect for that dataset; no record = no scale *)
+Definition put_ok (p : list (option (list Z)) * option (list Z)) : Prop :=
+  match snd p with Some rec => rec = sds_encode (fst p) | None => has_scale (fst p) = false end.
+
+Lemma wsc_put_ok : forall st r, wsc_ok st -> put_ok (wsc_scales st, snd (wsc_put st r)).
+Proof.
+  intros st r (H1 & H2 & H3). unfold wsc_put, put_ok.
+  destruct (Z.eqb_spec (wsc_ref st) 0) as [E | E].
+  - destruct (has_scale (wsc_scales st)) eqn:HS; cbn [fst snd]; auto.
+  - destruct (Z.ltb_spec 0 (wsc_ref st)); cbn [fst snd]; [apply H2; assumption | apply H1; lia].
+Qed.
+
+Definition wop_ok (op : wop) : Prop := match op with WPut r => 0 < r | _ => True end.
+
+Lemma wsc_run_ok : forall ops st, wsc_ok st -> Forall wop_ok ops -> Forall put_ok (wsc_run st ops).
+Proof.
+  induction ops as [|op ops IH]; intros st Hst Hops; cbn [wsc_run]; [constructor |].
+  inversion Hops as [|? ? Hop Hrest]; subst.
+  pose proof (wsc_ok_step st op Hst Hop) as Hst'.
+  destruct (wsc_step st op) as [st' out] eqn:E. cbn [fst] in Hst'.
+  apply Forall_app. split; [| apply IH; assumption].
+  destruct op as [d s | rank | rank | r]; cbn [wsc_step] in E.
+  - inversion E; subst. constructor.
+  - inversion E; subst. constructor.
+  - inversion E; subst. constructor.
+  - destruct (wsc_put st r) as [st2 rec] eqn:P. inversion E; subst. constructor; [| constructor].
+    pose proof (wsc_put_ok st r Hst) as Q. rewrite P in Q. exact Q.
+Qed.
+
+Lemma wsc_initial_ok : wsc_ok (mkWs [] (-1) []).
+Proof. unfold wsc_ok; cbn. repeat split; intros; try lia; reflexivity. Qed.
+
+Definition put_reads_back (p : list (option (list Z)) * option (list Z)) : Prop :=
+  match snd p with
+  | Some rec => forall sizes, Forall2 scale_fits (fst p) sizes ->
+                  sd_read_scales sizes rec = fst p /\ dfsd_read_scales sizes rec = fst p
+  | None => has_scale (fst p) = false
+  end.
+
+Lemma wsc_session_reads_back : forall ops, Forall wop_ok ops ->
+  Forall put_reads_back (wsc_run (mkWs [] (-1) []) ops).
+Proof.
+  intros ops H. eapply Forall_impl; [| apply (wsc_run_ok ops _ wsc_initial_ok H)].
+  intros [sc rec] Hp. unfold put_ok, put_reads_back in *. cbn [fst snd] in *.
+  destruct rec as [rc |]; [| exact Hp]. subst rc. intros sizes HF.
+  split; [apply sds_roundtrip_sd | apply sds_roundtrip_dfsd]; assumption.
+Qed.
